@@ -84,6 +84,14 @@ namespace dh
     }
 
     // ---- visitor hierarchies --------------------------------------------------------------------------------------
+    // a user-written catch-all policy: reports which visitor was unknown and returns an error value of its own
+    struct CatchRecord { const void* visitor; };
+    inline std::vector<CatchRecord>& catch_log() { static std::vector<CatchRecord> v; return v; }
+    template <class R, class T>
+    struct reporting_catch_all
+    {
+        static R on_unknown_visitor(T&, xtl::base_visitor& v) { catch_log().push_back(CatchRecord{&v}); return R(-77); }
+    };
 #define DH_VISITABLE_HIERARCHY(NS, CATCH, THROWING)                                                              \
     namespace NS                                                                                                 \
     {                                                                                                            \
@@ -104,6 +112,9 @@ namespace dh
     }
     DH_VISITABLE_HIERARCHY(vdefault, xtl::default_catch_all, false)
     DH_VISITABLE_HIERARCHY(vthrowing, xtl::throwing_catch_all, true)
+    DH_VISITABLE_HIERARCHY(vreporting, reporting_catch_all, false)
+    template <class HT> struct unknown_return { static constexpr int value = 0; static constexpr bool reports = false; };
+    template <> struct unknown_return<vreporting::Types> { static constexpr int value = -77; static constexpr bool reports = true; };
 
     // cyclic
     struct Y1; struct Y2; struct Y3;
@@ -168,21 +179,38 @@ namespace
     template <> struct BaseList<2> { using type = mpl::vector<Shape, Shape>; };
     template <> struct BaseList<3> { using type = mpl::vector<Shape, Shape, Shape>; };
 
+    // what a handler returns: its id by value, or - for dispatchers declared with a reference return type - a
+    // reference to one of a fixed set of token objects, which dispatch() has to hand back as that very object
+    inline Extra* tokens() { static Extra t[256]; return t; }
+    template <class RET> struct RetTraits;
+    template <> struct RetTraits<int>
+    {
+        static int make(int id) { return id; }
+        static int id_of(int r) { return r; }
+    };
+    template <> struct RetTraits<const Extra&>
+    {
+        static const Extra& make(int id) { return tokens()[id % 256]; }
+        static int id_of(const Extra& r) { std::ptrdiff_t d = &r - tokens(); return (d >= 0 && d < 256) ? static_cast<int>(d) : -1; }
+    };
+
+    template <class RET = int>
     struct Recorder
     {
         std::vector<Call>* log;
         int id;
-        template <class... T> int operator()(T&... args) const { return record(args...); }
+        template <class... T> RET operator()(T&... args) const { return record(args...); }
         // the last argument is the undispatched extra
-        int record(Shape& a, Extra& e) const { log->push_back(Call{id, {&a}, &e}); return id; }
-        int record(Shape& a, Shape& b, Extra& e) const { log->push_back(Call{id, {&a, &b}, &e}); return id; }
-        int record(Shape& a, Shape& b, Shape& c, Extra& e) const { log->push_back(Call{id, {&a, &b, &c}, &e}); return id; }
+        RET record(Shape& a, Extra& e) const { log->push_back(Call{id, {&a}, &e}); return RetTraits<RET>::make(id); }
+        RET record(Shape& a, Shape& b, Extra& e) const { log->push_back(Call{id, {&a, &b}, &e}); return RetTraits<RET>::make(id); }
+        RET record(Shape& a, Shape& b, Shape& c, Extra& e) const { log->push_back(Call{id, {&a, &b, &c}, &e}); return RetTraits<RET>::make(id); }
     };
 
-    template <size_t N, template <class, class> class CAST, template <class, class, class, class> class BACKEND, bool CAN_ERASE>
+    template <size_t N, template <class, class> class CAST, template <class, class, class, class> class BACKEND, bool CAN_ERASE, class RET = int>
     struct FunctorWorld
     {
-        using Disp = xtl::functor_dispatcher<typename BaseList<N>::type, int, mpl::vector<Extra>, CAST, BACKEND>;
+        using Disp = xtl::functor_dispatcher<typename BaseList<N>::type, RET, mpl::vector<Extra>, CAST, BACKEND>;
+        using Rec = Recorder<RET>;
         using Key = std::array<int, N>;
         Run& run;
         const Plan& plan;
@@ -202,8 +230,8 @@ namespace
         // runtime tuple of types -> template instantiation
         template <class... Done> struct Ins
         {
-            template <class W> static void go(W& w, const Key& k, const Recorder& rec, std::true_type) { (void)k; w.disp.template insert<Done...>(rec); }
-            template <class W> static void go(W& w, const Key& k, const Recorder& rec, std::false_type)
+            template <class W> static void go(W& w, const Key& k, const typename W::Rec& rec, std::true_type) { (void)k; w.disp.template insert<Done...>(rec); }
+            template <class W> static void go(W& w, const Key& k, const typename W::Rec& rec, std::false_type)
             {
                 constexpr size_t I = sizeof...(Done);
                 using next = std::integral_constant<bool, I + 1 == N>;
@@ -237,10 +265,11 @@ namespace
 
         Key key_from(uint64_t raw) const { Key k; for (size_t i = 0; i < N; ++i) { k[i] = static_cast<int>(raw % NTYPES); raw /= NTYPES; } return k; }
 
+        // the identity of what dispatch() returned (for reference returns: which token object, -1 for any other object)
         int call(Shape* o[3]) { return call_impl(o, std::integral_constant<size_t, N>()); }
-        int call_impl(Shape* o[3], std::integral_constant<size_t, 1>) { return disp.dispatch(*o[0], extra); }
-        int call_impl(Shape* o[3], std::integral_constant<size_t, 2>) { return disp.dispatch(*o[0], *o[1], extra); }
-        int call_impl(Shape* o[3], std::integral_constant<size_t, 3>) { return disp.dispatch(*o[0], *o[1], *o[2], extra); }
+        int call_impl(Shape* o[3], std::integral_constant<size_t, 1>) { return RetTraits<RET>::id_of(disp.dispatch(*o[0], extra)); }
+        int call_impl(Shape* o[3], std::integral_constant<size_t, 2>) { return RetTraits<RET>::id_of(disp.dispatch(*o[0], *o[1], extra)); }
+        int call_impl(Shape* o[3], std::integral_constant<size_t, 3>) { return RetTraits<RET>::id_of(disp.dispatch(*o[0], *o[1], *o[2], extra)); }
 
         void dispatch_key(const Key& k, uint64_t which)
         {
@@ -290,7 +319,7 @@ namespace
                 if (error) viol("spurious-error", "handler " + std::to_string(it->second) + " is registered for (" + key_name(k) + ") but the call reported an error");
                 if (log.size() != 1) viol("wrong-handler", std::to_string(log.size()) + " handlers ran for one dispatch");
                 if (log[0].handler != it->second) viol("wrong-handler", "handler " + std::to_string(log[0].handler) + " ran for (" + key_name(k) + "), registered is " + std::to_string(it->second));
-                if (ret != it->second) viol("return", "the handler's return value was not passed back");
+                if (ret != it->second % (std::is_reference<RET>::value ? 256 : 1 << 30)) viol("return", std::is_reference<RET>::value ? "dispatch() did not hand back the object the handler returned a reference to" : "the handler's return value was not passed back");
                 for (size_t i = 0; i < N; ++i)
                     if (log[0].args[i] != static_cast<const void*>(o[i])) viol("arguments", "argument " + std::to_string(i) + " received by the handler is not the caller's object (wrong order or a copy)");
                 if (log[0].extra != &extra) viol("arguments", "the undispatched extra argument was not passed through unchanged");
@@ -314,7 +343,7 @@ namespace
                     if (st.op == OP_reinsert && !model.empty()) { auto it = model.begin(); std::advance(it, static_cast<long>(st.b % model.size())); k = it->first; SIM_PROBE("handler_overwritten"); }
                     int id = next_handler++;
                     bool ok = true;
-                    try { Active a; Ins<>::go(*this, k, Recorder{&log, id}, std::false_type()); }
+                    try { Active a; Ins<>::go(*this, k, Rec{&log, id}, std::false_type()); }
                     catch (const std::bad_alloc&) { ok = false; }
                     if (ok) { model[k] = id; uncertain.erase(k); }
                     else
@@ -546,7 +575,7 @@ namespace
             VisAll va; va.log = &log; Vis12 v12; v12.log = &log; Vis3 v3; v3.log = &log; VisNone vn;
             xtl::base_visitor* vis = v == 0 ? static_cast<xtl::base_visitor*>(&va) : (v == 1 ? static_cast<xtl::base_visitor*>(&v12) : (v == 2 ? static_cast<xtl::base_visitor*>(&v3) : static_cast<xtl::base_visitor*>(&vn)));
             bool implemented = t != 0 && ((v == 0) || (v == 1 && (t == 1 || t == 2)) || (v == 2 && t == 3));
-            log.clear();
+            log.clear(); catch_log().clear();
             bool error = false; int ret = -1;
             try { ret = target->accept(*vis); } catch (const std::runtime_error&) { error = true; }
             if (implemented)
@@ -562,7 +591,8 @@ namespace
             {
                 if (!log.empty()) viol("wrong-handler", "the visitor does not implement visit for type " + std::to_string(t) + " but visit for type " + std::to_string(log[0].first) + " ran");
                 if (throwing && !error) viol("no-error", "throwing catch-all policy: unknown visitor was not reported");
-                if (!throwing && (error || ret != 0)) viol("no-error", "default catch-all policy must return a default value");
+                if (!throwing && (error || ret != unknown_return<HT>::value)) viol("no-error", "the catch-all policy's return value (" + std::to_string(unknown_return<HT>::value) + ") was not passed back: accept returned " + std::to_string(ret));
+                if (unknown_return<HT>::reports && (catch_log().size() != 1 || catch_log()[0].visitor != static_cast<const void*>(vis))) viol("no-error", "the catch-all policy was not called exactly once with the caller's visitor");
                 SIM_PROBE("catch_all_taken");
                 if (t == 3 && v == 1) SIM_PROBE("derived_visited_by_visitor_of_base_only");
             }
@@ -602,7 +632,7 @@ namespace
             VisAll va; va.log = &log; Vis2 v2; v2.log = &log;
             xtl::base_visitor* vis = v == 0 ? static_cast<xtl::base_visitor*>(&va) : static_cast<xtl::base_visitor*>(&v2);
             bool implemented = t != 0 && (v == 0 || t == 2);
-            log.clear();
+            log.clear(); catch_log().clear();
             bool error = false; int ret = -1;
             try { ret = target->accept(*vis); } catch (const std::runtime_error&) { error = true; }
             if (implemented)
@@ -616,7 +646,8 @@ namespace
             {
                 if (!log.empty()) viol("wrong-handler", "a visit ran although the visitor does not implement this type");
                 if (throwing && !error) viol("no-error", "throwing catch-all policy: unknown visitor was not reported");
-                if (!throwing && (error || ret != 0)) viol("no-error", "default catch-all policy must return a default value");
+                if (!throwing && (error || ret != unknown_return<HT>::value)) viol("no-error", "the catch-all policy's return value (" + std::to_string(unknown_return<HT>::value) + ") was not passed back: accept returned " + std::to_string(ret));
+                if (unknown_return<HT>::reports && (catch_log().size() != 1 || catch_log()[0].visitor != static_cast<const void*>(vis))) viol("no-error", "the catch-all policy was not called exactly once with the caller's visitor");
                 SIM_PROBE("catch_all_taken");
             }
             run.dig(static_cast<uint64_t>(ret + 1000));
@@ -697,6 +728,8 @@ namespace
     DS_CFG(fast_2arg_dynamic_cast, 4, FunctorWorld<2, xtl::dynamic_caster, xtl::basic_fast_dispatcher, false>);
     DS_CFG(fast_2arg_static_cast, 3, FunctorWorld<2, xtl::static_caster, xtl::basic_fast_dispatcher, false>);
     DS_CFG(fast_3arg_static_cast, 3, FunctorWorld<3, xtl::static_caster, xtl::basic_fast_dispatcher, false>);
+    DS_CFG(map_2arg_reference_return, 1, FunctorWorld<2, xtl::dynamic_caster, xtl::basic_dispatcher, true, const Extra&>);
+    DS_CFG(fast_2arg_reference_return, 1, FunctorWorld<2, xtl::static_caster, xtl::basic_fast_dispatcher, false, const Extra&>);
     DS_CFG(static_antisymmetric, 2, StaticWorld<xtl::antisymmetric_dispatch>);
     DS_CFG(static_symmetric, 2, StaticWorld<xtl::symmetric_dispatch>);
     DS_CFG(static_antisymmetric_other_rhs_list, 1, StaticWorld<xtl::antisymmetric_dispatch, 1>);
@@ -705,6 +738,8 @@ namespace
     DS_CFG(acyclic_visitor_throwing_catch_all, 1, AcyclicWorld<vthrowing::Types>);
     DS_CFG(const_acyclic_visitor_default_catch_all, 1, ConstAcyclicWorld<vdefault::Types>);
     DS_CFG(const_acyclic_visitor_throwing_catch_all, 1, ConstAcyclicWorld<vthrowing::Types>);
+    DS_CFG(acyclic_visitor_reporting_catch_all, 1, AcyclicWorld<vreporting::Types>);
+    DS_CFG(const_acyclic_visitor_reporting_catch_all, 1, ConstAcyclicWorld<vreporting::Types>);
     DS_CFG(cyclic_visitor, 1, CyclicWorld<false>);
     DS_CFG(const_cyclic_visitor, 1, CyclicWorld<true>);
 }
